@@ -1,6 +1,7 @@
 package types
 
 import (
+	"reflect"
 	"sync"
 
 	"github.com/kaptinlin/gozod/core"
@@ -96,11 +97,13 @@ func (z *ZodLazy[T]) Parse(input any, ctx ...*core.ParseContext) (T, error) {
 
 	in := &z.internals.ZodTypeInternals
 
+	// A nil pointer is a nil input, as for every engine-parsed type.
+	if rv := reflect.ValueOf(input); input != nil && rv.Kind() == reflect.Pointer && rv.IsNil() {
+		input = nil
+	}
+
+	// Priority: Default > Prefault > NonOptional > Optional/Nilable, as in engine.processModifiersCore.
 	if input == nil {
-		if in.NonOptional {
-			var zero T
-			return zero, issues.CreateNonOptionalError(pc)
-		}
 		// convertResult wraps the default in a pointer when T is *any (Optional/Nilable lazies);
 		// a plain assertion to T panicked there.
 		if in.DefaultValue != nil {
@@ -114,6 +117,9 @@ func (z *ZodLazy[T]) Parse(input any, ctx ...*core.ParseContext) (T, error) {
 			input = engine.CloneDefaultValue(in.PrefaultValue)
 		case in.PrefaultFunc != nil:
 			input = in.PrefaultFunc()
+		case in.NonOptional:
+			var zero T
+			return zero, issues.CreateNonOptionalError(pc)
 		case in.Optional || in.Nilable:
 			var zero T
 			return zero, nil
